@@ -24,7 +24,9 @@ def open_input(filename):
     if filename == '-':
         fh = sys.stdin
     else:
-        fh = open(filename, 'r')
+        # graph files are UTF-8, whatever the locale: this is how
+        # writeGraph (and 'save') write them and readGraph reads them
+        fh = open(filename, 'r', encoding='utf-8')
     try:
         yield fh
     finally:
